@@ -18,10 +18,10 @@ theorem safe_bindProp {n : Nat} (_ih : SafeAll n) (σ : State) (a : Addr) (name 
   · apply Safe.bind (opAssignValue_safe n op hw (objGet_ok (hw.obj hp) (by assumption)) hr); intro v σ1 hw1 he1 hv
     obtain ⟨props', hp'⟩ := getObj_of_tag (tag_mono ha he1)
     rw [hp']; dsimp only []
-    exact Safe.ok (set_obj_wf hw1 hp' (objInsert_ok (hw1.obj hp') hv)) (set_ext_obj _ hp') trivial
+    exact Safe.ok (set_obj_wf hw1 hp' (objInsert_ok (hw1.obj hp') hv) (objInsert_sorted (hw1.sorted hp'))) (set_ext_obj _ hp') trivial
   · split
     · split <;> exact Safe.errAt
-    · exact Safe.ok (set_obj_wf hw hp (objInsert_ok (hw.obj hp) hr)) (set_ext_obj _ hp) trivial
+    · exact Safe.ok (set_obj_wf hw hp (objInsert_ok (hw.obj hp) hr) (objInsert_sorted (hw.sorted hp))) (set_ext_obj _ hp) trivial
 
 theorem safe_bindRangeIndex {n : Nat} (ih : SafeAll n) (σ : State) (sc : List Addr) (a : Addr) (start stop : Option Expr)
     (loc : Loc) (rhsItems : List SVal) (names : List (List Char)) (hw : WF σ) (hs : ScOK σ sc)
@@ -80,7 +80,7 @@ theorem safe_bindObject {n : Nat} (ih : SafeAll n) (σ : State) (sc : List Addr)
           · obtain ⟨m, hm⟩ := getObj_of_tag hb
             rw [hm]; dsimp only []
             rcases h : σ.alloc (.obj (m.filter fun kv => remaining.contains kv.1)) with ⟨ra, σ1⟩
-            obtain ⟨hw1, he1, ht1⟩ := alloc_spec h hw (c := .obj _) ((hw.obj hm).filter _)
+            obtain ⟨hw1, he1, ht1⟩ := alloc_spec h hw (c := .obj _) ⟨(hw.obj hm).filter _, (hw.sorted hm).filter _⟩
             dsimp only []
             refine Safe.weaken ?_ he1
             apply Safe.bind (bindNextName_safe n _ _ _ _ _ hw1 (hs.mono he1) (SValOK.plain (v := .obj ra) ht1))
